@@ -22,7 +22,7 @@ MUT = {
  "freeze-drops-pending": ("  map (fun fl => (fst fl, (fld_thunk fl, []))) fs.", "  map (fun fl => (fst fl, (fst (snd fl), []))) fs."),
  "eq-ignores-pending": ("eq_pairs (rev (combine (arr_elems es1 p1) (arr_elems es2 p2)))", "eq_pairs (rev (combine es1 es2))"),
  "force-array-ignores-pending": ("    | VArr es p => bind (force_list (arr_elems es p)) (fun xs => Ok (TrArr xs))", "    | VArr es p => bind (force_list es) (fun xs => Ok (TrArr xs))"),
- "force-record-ignores-pending": ("        bind (force_list (map fld_thunk fs)) (fun xs =>", "        bind (force_list (map (fun f => fst (snd f)) fs)) (fun xs =>"),
+ "force-record-ignores-pending": ("        bind (force_list (map fld_thunk (close_rec fs))) (fun xs =>", "        bind (force_list (map (fun f => fst (snd f)) (close_rec fs))) (fun xs =>"),
  "array-contract-eager": ("      | VArr es p => Ok (prim_array_lazy_app (pol, c') es p)", "      | VArr es p => if existsb (fun e => match e with TVal (Ok (VStr _)) => true | TVal (Err _) => true | _ => false end) es then Err (blame pol) else Ok (prim_array_lazy_app (pol, c') es p)"),
  "dict-contract-dropped": ("      | VRec fs => Ok (prim_record_lazy_app (pol, c') fs)", "      | VRec fs => Ok (VRec fs)"),
  "func-no-domain-check": ("apply_ctr pol c (app f' (TCtr (negb pol, d) arg))", "apply_ctr pol c (app f' arg)"),
@@ -32,7 +32,7 @@ MUT = {
  "reverse-raw-elements": ("        Ok (VArr (rev (arr_elems es p)) [])))", "        Ok (VArr (rev es) [])))"),
  "record-eq-raw": ("          | Some (x2, p2) => [(fld_thunk f1, tctrs p2 x2)]", "          | Some (x2, p2) => [(fst (snd f1), tctrs p2 x2)]"),
  "recordtype-no-check": ("                                  | Some (x, p) => [(n, (TCtr (pol, c') (tctrs p x), []))]", "                                  | Some (x, p) => [(n, (tctrs p x, []))]"),
- "recordcontract-no-check": ("                      ++ map (fun fl => (fst fl, (fst (snd fl), snd (snd fl) ++ [(pol, c')])))\n                           ctrf))", "                      ++ ctrf))"),
+ "recordcontract-no-check": ("                      ++ map (fun fl => (fst fl, (fst (snd fl), snd (snd fl) ++ [(true, c')])))\n                           ctrf))", "                      ++ ctrf))"),
  "deepseq-shallow": ("    | ODeepSeq => bind (fo t) (fun _ => ev t)", "    | ODeepSeq => ev t"),
  "toarray-raw": ('("value", TObs (OAccess (fst fl)) (TVal (Ok (VRec fs))))])', '("value", fst (snd fl))])'),
 }
@@ -42,8 +42,8 @@ def build(name, old, new):
     shutil.rmtree(d, ignore_errors=True)
     os.makedirs(d + '/NVm/Delayed')
     src = open('/verif/coq/Delayed/Model.v').read()
-    assert src.count(old) == 1, (name, src.count(old))
-    open(d + '/NVm/Delayed/Model.v', 'w').write(src.replace(old, new))
+    assert src.count(old) >= 1, (name, src.count(old))      # the first occurrence is the live definition
+    open(d + '/NVm/Delayed/Model.v', 'w').write(src.replace(old, new, 1))
     shutil.copy('/verif/coq/Delayed/Spec.v', d + '/NVm/Delayed/Spec.v')
     for f in ('Model', 'Spec'):
         r = subprocess.run(['coqc', '-Q', d + '/NVm', 'NV', '-w', '-all', d + '/NVm/Delayed/%s.v' % f], capture_output=True, text=True)
